@@ -85,6 +85,17 @@ func genC10Compile(r *rand.Rand, n int, tier string) []string {
 		}
 		// some variables are bound when the clause is asserted
 		var binds []string
+		// … in particular variables standing for a piece of the clause's own STRUCTURE (a goal, a
+		// conjunction, an if-then, a disjunct, a head argument): the compiler resolves lazily at every
+		// level of its traversal, and each of those places must look through the binding
+		nextVar := g.nvars
+		for k := r.Intn(3); k > 0 && clause.kind == "app"; k-- {
+			var abstracted *gt
+			clause = abstractSub(r, clause, 0, &nextVar, &abstracted)
+			if abstracted != nil {
+				binds = append(binds, fmt.Sprintf("%d=%s", nextVar-1, abstracted))
+			}
+		}
 		for v := 0; v < g.nvars; v++ {
 			if r.Intn(4) == 0 {
 				g2 := &termGen{r: r, nvars: g.nvars}
@@ -102,6 +113,31 @@ func genC10Compile(r *rand.Rand, n int, tier string) []string {
 		out = append(out, fmt.Sprintf("%s | %s | %s", rec, clause, strings.Join(binds, " & ")))
 	}
 	return out
+}
+
+// abstractSub replaces one random proper subterm of t (at depth >= 1) by a fresh variable and
+// returns the subterm through out.
+func abstractSub(r *rand.Rand, t *gt, depth int, nextVar *int, out **gt) *gt {
+	if t.kind != "app" || len(t.args) == 0 {
+		return t
+	}
+	i := r.Intn(len(t.args))
+	args := append([]*gt{}, t.args...)
+	sub := t.args[i]
+	if sub.kind == "var" {
+		return t
+	}
+	if sub.kind != "app" || r.Intn(2) == 0 || depth >= 3 {
+		if depth == 0 && t.s == ":-" && i == 0 {
+			return t // not the whole head (a variable head is an error case of its own)
+		}
+		*out = sub
+		args[i] = gVar(*nextVar)
+		*nextVar = *nextVar + 1
+	} else {
+		args[i] = abstractSub(r, sub, depth+1, nextVar, out)
+	}
+	return gApp(t.s, args...)
 }
 
 func runC10Compile(payload string) string {
@@ -289,7 +325,11 @@ func genC10Observe(r *rand.Rand, n int, tier string) []string {
 			i--
 			continue
 		}
-		out = append(out, fmt.Sprintf("%s | %s", clause, strings.Join(binds, " & ")))
+		rec := make([]byte, 1+r.Intn(3))
+		for j := range rec {
+			rec[j] = c02Recipes[r.Intn(len(c02Recipes))]
+		}
+		out = append(out, fmt.Sprintf("%s | %s | %s", clause, strings.Join(binds, " & "), rec))
 	}
 	return out
 }
@@ -332,9 +372,12 @@ func renameHead(t engine.Term, to string) engine.Term {
 
 func runC10Observe(payload string) string {
 	f := strings.Split(payload, " | ")
-	cl, bindS := f[0], ""
+	cl, bindS, recipe := f[0], "", "b"
 	if len(f) > 1 {
 		bindS = f[1]
+	}
+	if len(f) > 2 && strings.TrimSpace(f[2]) != "" {
+		recipe = strings.TrimSpace(f[2])
 	}
 	i, outBuf := newInterp("")
 	if err := i.Exec(":- dynamic(p/0). :- dynamic(p/1). :- dynamic(p/2). :- dynamic(p/3). :- dynamic(p2/0). :- dynamic(p2/1). :- dynamic(p2/2). :- dynamic(p2/3). q(1). q(2). q(a)."); err != nil {
@@ -344,7 +387,7 @@ func runC10Observe(payload string) string {
 	reps := map[string]bool{}
 	var pre []engine.Term
 	var lvars []engine.Variable
-	b := &builder{i: i, vars: vars, recipe: "b", reps: reps, pre: &pre, lvars: &lvars}
+	b := &builder{i: i, vars: vars, recipe: recipe, reps: reps, pre: &pre, lvars: &lvars}
 	gcl := parseGT(cl)
 	t := b.build(gcl)
 	arity := 0
@@ -382,6 +425,9 @@ func runC10Observe(payload string) string {
 	for k := len(bindGoals) - 1; k >= 0; k-- {
 		goal = compound(",", bindGoals[k], goal)
 	}
+	for k := len(pre) - 1; k >= 0; k-- {
+		goal = compound(",", pre[k], goal)
+	}
 	var after string
 	_, err := solve(&i.VM, goal, 1, 5*time.Second, func(env *engine.Env) bool {
 		after = wire(engine.List(vs...), env, newVarNamer())
@@ -414,6 +460,20 @@ func runC10Observe(payload string) string {
 		cls, e1 := solveAll(&i.VM, compound("clause", mk(name, as), bv), compound(":-", mk("p", as), bv), 20)
 		as2 := args()
 		ans, e2 := solveAll(&i.VM, mk(name, as2), mk("p", as2), 20)
+		// the same call with a VARIANT OF THE HEAD's arguments built through a different constructor
+		// path ('.'/2 compound cells, fresh variables): it unifies with the head by a mere renaming, so
+		// the answers must be the same
+		var ans2 []string
+		if hd.kind == "app" {
+			vb := &builder{i: i, vars: map[int]engine.Variable{}, recipe: "d", reps: map[string]bool{}, pre: &[]engine.Term{}, lvars: &[]engine.Variable{}}
+			hv := make([]engine.Term, len(hd.args))
+			for k, a := range hd.args {
+				hv[k] = vb.build(a)
+			}
+			ans2, _ = solveAll(&i.VM, mk(name, hv), mk("p", hv), 20)
+		} else {
+			ans2 = ans
+		}
 		as3 := args()
 		bv3 := engine.NewVariable()
 		ret, e3 := solveAll(&i.VM, compound("retract", compound(":-", mk(name, as3), bv3)), compound(":-", mk("p", as3), bv3), 20)
@@ -425,7 +485,7 @@ func runC10Observe(payload string) string {
 				es += " " + errWire(e)
 			}
 		}
-		return fmt.Sprintf("clause=[%s] call=[%s] retract=[%s] left=%d%s", strings.Join(cls, " , "), strings.Join(ans, " , "), strings.Join(ret, " , "), len(left), es)
+		return fmt.Sprintf("clause=[%s] call=[%s] call2=[%s] retract=[%s] left=%d%s", strings.Join(cls, " , "), strings.Join(ans, " , "), strings.Join(ans2, " , "), strings.Join(ret, " , "), len(left), es)
 	}
 	a := observe("p")
 	bb := observe("p2")
